@@ -174,12 +174,26 @@ structure Crypto where
   pubJson : Nat → Bytes                  -- GetEcdsaPublicKeyJsonFormatStr of key pair k
   signWith : Nat → Bytes → Bytes         -- SignECDSA with the private key of pair k
 
-/-- `VerifyMerkle` recomputes the tree from the body; the carried array `b.carried` (outside id
-and signature, so rewritable by anyone) is not consulted -/
+/-- node arrays compared the way `bytes.Equal` does: a nil node and an empty one are the same -/
+def sameNodes (a b : List (Option Bytes)) : Bool := a.map (·.getD []) == b.map (·.getD [])
+
+/-- `VerifyMerkle` recomputes the tree from the body: its root must be the header's root and —
+since the repair — the carried array `b.carried` (outside id and signature, so rewritable by
+anyone, but stored with the header and used by `queryBlock` to list the body) must be that tree -/
 def verifyMerkle (H : Bytes → Bytes) (b : Block) : Bool :=
   match merkleRoot H b.txids with
   | none => false
+  | some r => r == b.merkleRoot && sameNodes b.carried (merkleTree H b.txids)
+
+/-- `VerifyMerkle` as found: the carried array was not consulted -/
+def verifyMerkleAsFound (H : Bytes → Bytes) (b : Block) : Bool :=
+  match merkleRoot H b.txids with
+  | none => false
   | some r => r == b.merkleRoot
+
+/-- `queryBlock`: the body of a stored block is listed from the first `TxCount` nodes of the tree
+stored with its header -/
+def storedBody (b : Block) : List Bytes := (b.carried.take b.txCount.toNat).map (·.getD [])
 
 def verifySig (c : Crypto) (b : Block) : Bool :=
   match c.keyOf b.pubkey with
@@ -192,6 +206,14 @@ def verifyBlock (c : Crypto) (b : Block) : Bool :=
   && (b.txCount == (b.txids.length : Int))
   && b.txids.all (fun t => t.length == hashWidth)
   && verifyMerkle c.H b
+  && verifySig c b
+
+/-- `Ledger.VerifyBlock` as found (before the carried tree was checked) -/
+def verifyBlockAsFound (c : Crypto) (b : Block) : Bool :=
+  (c.H (preimage b) == b.blockid)
+  && (b.txCount == (b.txids.length : Int))
+  && b.txids.all (fun t => t.length == hashWidth)
+  && verifyMerkleAsFound c.H b
   && verifySig c b
 
 /-- `Ledger.formatBlock` with `needSign` (FormatBlock / FormatMinerBlock); the block is
